@@ -1387,3 +1387,28 @@ def package_lints(cx: Cx, ob: Ob, files: set) -> None:
     ob.site("src/curies/{" + ",".join(sorted(files)) + "}", f"{n} functions scanned (def-use lints)")
     for l in lints:
         ob.violate(l.fn.qualname, where(l.fn, l.line), l.message, detail=f"{l.rule}:{l.name}")
+
+
+def no_fields_set_dependence(cx: Cx, ob: Ob) -> None:
+    """Records are copied / serialised whole: nothing depends on pydantic's model_fields_set, which
+    in-place merging (Converter._merge appends to the synonym lists) does not update."""
+    n = 0
+    for fn in cx.model.functions.values():
+        s = cx.summary(fn)
+        n += 1
+        for t, ev, ctx in s.all_terms():
+            for c in subterms(t):
+                bad = None
+                if op(c) == "call" and callee_name(c) in ("model_dump", "model_dump_json", "dict", "json") and any(k == "exclude_unset" and not (op(v) == "const" and v[1] in (False, None)) for k, v in c[3]):
+                    bad = f"{callee_name(c)}(exclude_unset=True)"
+                if op(c) == "attr" and c[2] in ("model_fields_set", "__fields_set__", "__pydantic_fields_set__"):
+                    bad = c[2]
+                if bad:
+                    ob.violate(
+                        fn.qualname,
+                        where(fn, ev.line),
+                        f"{fn.name} uses {bad}: synonyms that reached a record by in-place merging (add_prefix / add_record with merge=True, chain) are not in the model's fields_set, so a copy or dump made this way silently loses them",
+                        witness="c = Converter([Record(prefix='a', uri_prefix='u')]); c.add_prefix('a', 'v', merge=True); the copy has no URI-prefix synonym 'v'",
+                        detail="fields-set-dependent",
+                    )
+    ob.site("src/curies", f"{n} functions scanned for fields_set-dependent copies")
